@@ -3,7 +3,6 @@ import logging
 import os
 import warnings
 
-from vf import table
 from vf.core import Ctx
 from vf.tlc import MachineryError
 
@@ -115,11 +114,7 @@ def run(ctx: Ctx) -> None:
     consts = {"MaxLen": 3 if quick else 4}
     invs = ["Agree", "OnlyOfferedAndProducible", "NoOverlapNoCoding", "VgiPrecedence", "IdentityFirst",
             "UnknownAndDuplicatesIrrelevant", "HeaderWellFormed"]
-    cases = table.enumerate_cases(ctx, "httpgate", "Negotiate", constants=consts, invariants=invs)
-    if quick:
-        # the table itself is also checked at the full length bound (no emission, no execution)
-        table.enumerate_cases(ctx, "httpgate", "Negotiate", constants={"MaxLen": 4}, invariants=invs, emit=False,
-                              name="Negotiate:table-sanity-len4")
+    cases = U.enumerate_split(ctx, "httpgate", "Negotiate", constants=consts, invariants=invs)
     ctx.exhaustive = True
     ctx.rule = ("case = (Accept-Encoding list, X-VGI-Accept-Encoding list, server encode set), all enumerated by TLC "
                 "from Negotiate!Cases; each is executed on path unary and (all / a fixed stride of the longest) on a "
@@ -160,7 +155,7 @@ def run(ctx: Ctx) -> None:
         if not obs:
             return
         judged = [{"case": o["case"], "obs": o["obs"]} for o in obs]
-        bad = table.judge(ctx, "httpgate", "Negotiate", judged, constants=consts, chunk=50000)
+        bad = U.judge_split(ctx, "httpgate", "Negotiate", judged, constants=consts)
         for idx, clauses in bad:
             o = obs[idx]
             for cl in clauses:
